@@ -233,3 +233,22 @@ PROPS["C11"] = dict(
     rule="cases = steps of generated histories (every step snapshots the whole pool) + replayed calls + objects built under "
          "the other code path; each step is distinct by (history, step)",
 )
+
+PROPS["C14"] = dict(
+    level="proof",
+    technique="Lean 4 theorems (refused <=> incompatible for the transcribed guards of apply/time_evolve, ax_plus_y, the "
+              "constructor and the propagator arguments) + exhaustive run of the incompatible-argument product and a "
+              "hostile-value battery in guarded child interpreters (also under python -O)",
+    text="The decision tables are proved equivalent to the written-out incompatibility predicates; the real entry points "
+         "are driven through the full product of incompatible combinations (outcome class from the Lean table, operand "
+         "snapshots before/after, admitted calls checked against Spec), and a battery of hostile values (operator indices "
+         "beyond norb and beyond 64, wrong shapes/dtypes/orders, malformed RDM strings, impossible constructor arguments) "
+         "runs in child interpreters with and without -O: termination by signal or non-zero status, or an answer where a "
+         "refusal is due, is a violation.",
+    note="Lean kernel; only the listed guards are modelled (not every raise site of the library); 'never terminates the "
+         "interpreter' is established for the executed battery only (partial).",
+    design_ref="DESIGN.md §5 C14",
+    rule="cases = every cell of the incompatibility tables x entry point, plus each hostile attempt x interpreter mode; "
+         "every case distinct by its arguments",
+    exhaustive_note="decision tables enumerated completely for norb=2",
+)
